@@ -110,6 +110,7 @@ def buffer_param(fn):
 
 
 class LoopVariant(Unit):
+    native_timeout = 0  # runs long by design (own budgets / child processes): no per-call alarm
     name = "termination/loop-variant"
     properties = ("C11",)
     witness = False  # the inputs of a path do not determine the havocked loop-head state
@@ -231,6 +232,7 @@ class LoopVariant(Unit):
 
 
 class RangeLoops(Unit):
+    native_timeout = 0  # runs long by design (own budgets / child processes): no per-call alarm
     """every `for ... in range(...)` of a decoder: when the range is built, its length is at most 2*len(buffer)+8 on
     every path (any buffer length, any contents) -- or does not depend on device data at all.  `while` loops met on
     the way are replaced by their summaries (they have their own variant obligations)."""
@@ -298,6 +300,7 @@ class RangeLoops(Unit):
 
 
 class LoopInventory(Unit):
+    native_timeout = 0  # runs long by design (own budgets / child processes): no per-call alarm
     name = "termination/inventory"
     properties = ("C11",)
 
@@ -478,6 +481,7 @@ def iteration_bound(n):
 
 
 class BoundedTermination(Unit):
+    native_timeout = 0  # runs long by design (own budgets / child processes): no per-call alarm
     """every decoder on every buffer of a small length: no path iterates more than len+2 times"""
 
     name = "termination/bounded"
@@ -544,6 +548,7 @@ class BoundedTermination(Unit):
 
 
 class ReadCdGrid(Unit):
+    native_timeout = 0  # runs long by design (own budgets / child processes): no per-call alarm
     """READ CD decoder over the whole grid of its request arguments (expected sector type x main channel selection x
     C2 error information x sub-channel selection x transfer length incl. 0 / omitted): every call returns or raises within
     the iteration bound.  Native runs under a loop-header budget."""
